@@ -457,16 +457,10 @@ fn gen_cellref(rng: &mut Rng, wide: bool) -> CellRef {
 }
 
 fn gen_string(rng: &mut Rng) -> (bool, Vec<char>) {
-    let alpha: &[&str] = &["abc XY,;!()+-'", "aé£ÿ", "Жыц", "中文", "a😀b𝒳"];
+    let alpha: &[&str] = &["abc XY,;!()+-'", "aé£ÿ", "Жыц", "中文", "a😀b𝒳", "\u{FEFF}\u{FFFE}\u{BBEF}¿A"];
     let a: Vec<char> = rng.pick(alpha).chars().collect();
     let len = *rng.pick(&[0usize, 1, 2, 3, 10, 40]);
     let mut s: Vec<char> = (0..len).map(|_| *rng.pick(&a)).collect();
-    // first code unit must not be a byte-order mark (encoding_rs sniffs it; not modelled) — never true for these alphabets
-    if let Some(c) = s.first() {
-        if ['\u{FEFF}', '\u{FFFE}', '\u{BBEF}'].contains(c) {
-            s[0] = 'x';
-        }
-    }
     let latin = s.iter().all(|c| (*c as u32) < 256);
     (!latin || rng.chance(2, 5), s)
 }
@@ -768,20 +762,15 @@ fn gen_raw(rng: &mut Rng, fmt: &str, valid: &[u8]) -> Vec<u8> {
                 .collect();
         }
         _ => {
-            // PtgStr with arbitrary code units (lone surrogates included), never starting with a byte-order mark
+            // PtgStr with arbitrary code units (lone surrogates and byte-order marks included)
             let n = rng.range(0, 6) as usize;
-            let mut units: Vec<u16> = (0..n)
+            let units: Vec<u16> = (0..n)
                 .map(|_| match rng.below(4) {
                     0 => rng.range(0xD800, 0xDFFF) as u16,
-                    1 => rng.range(0x20, 0x7E) as u16,
+                    1 => *rng.pick(&[0x41u16, 0xFEFF, 0xFFFE, 0xBBEF, 0xBF]),
                     _ => rng.next() as u16,
                 })
                 .collect();
-            if let Some(u) = units.first_mut() {
-                if [0xFEFF, 0xFFFE, 0xBBEF].contains(u) {
-                    *u = 0x41;
-                }
-            }
             body = vec![0x17];
             if fmt == "xls" {
                 body.push(n as u8);
@@ -846,6 +835,10 @@ fn corpus() -> Vec<&'static str> {
         "raw - xlsb 2400 S=5331 N= X=0",
         // D39 FTAB_ARGC listed MMULT (165) with 1 argument: =MMULT(A1:B2,C1:D2) written as PtgFunc could not be decoded
         "enc S=5331 N= X=0 | FN 1 165 2 A 0 0 0 0 0 1 1 0 0 A 0 0 2 0 0 1 3 0 0",
+        // D40 xlsb PtgStr sniffed a byte-order mark in a string literal (U+FEFF dropped, U+FFFE / U+BBEF U+xxBF re-decoded)
+        "enc S=5331 N= X=0 | S 1 65279,65",
+        "enc S=5331 N= X=0 | S 1 65534,65",
+        "enc S=5331 N= X=0 | S 1 48111,191,65",
         // well-formed odds and ends
         "enc S=5331 N=4d794e616d65 X=0 | FV 0 4 3 OP 3 R 0 0 27 1 0 I 2 U- PAR N 1 0 M",
         "enc S=5331 N= X=0 | FN 1 19 0",
@@ -1412,8 +1405,7 @@ fn main() {
          mutated token streams (truncation, byte flips, opcode soup, arbitrary UTF-16 units): real decoder vs model \
          (result, error class, panic). Stated restrictions: string literals contain no '\"' (decoders copy characters \
          verbatim), sheet names are rendered without quoting, numbers as Rust Display prints them (the model prints a \
-         placeholder which the harness substitutes), code page 1200 (BIFF8), first character of a 16-bit string is not \
-         a byte-order mark (U+FEFF/U+FFFE/U+BBEF: encoding_rs sniffs it, not modelled), xls rows < 65536; function names \
+         placeholder which the harness substitutes), code page 1200 (BIFF8), xls rows < 65536; function names \
          are compared against the crate's own FTAB (golden) plus 96 names/arities hard-coded from MS-XLS. non-trivial = \
          expression of depth >= 2 (or column >= 26, or a raw stream); distinct by the input text",
     );
